@@ -21,7 +21,8 @@ where
 
     #[inline]
     fn count(h: usize, start: usize) -> usize {
-        h - start + 1
+        // start == h + 1 is the empty window
+        h + 1 - start
     }
 
     #[inline]
